@@ -464,8 +464,6 @@ def family_int_e2e(check, tier):
                 continue
             for proto in PROTOS:
                 for pos in positions:
-                    if pos == 'att' and proto not in ('xml', 'soap11'):
-                        continue
                     payload = ('items', [z]) if pos == 'arr' else ('val', z)
                     res = h.run(proto, pos, payload)
                     got = classify(res)
@@ -527,10 +525,6 @@ def family_text_e2e(check, tier):
             want = ref_conforms_text(kw, s)
             for proto in PROTOS:
                 for pos in ('top', 'nested', 'arr', 'att'):
-                    if pos == 'att' and proto not in ('xml', 'soap11'):
-                        continue
-                    if s == '' and proto in ('xml', 'soap11', 'http'):
-                        continue     # an empty element / empty query value is not distinguishable from absent text
                     payload = ('items', [s]) if pos == 'arr' else ('val', s)
                     res = h.run(proto, pos, payload)
                     got = classify(res)
@@ -799,6 +793,339 @@ def family_lexical(check, tier):
     check.sample({'family': 'lexical', 'DateTime': LEX['DateTime'][1][4:8]})
 
 
+# ------------------------------------------------------------------ wire forms of every primitive kind
+import datetime as _dt
+import decimal as _dec
+NOCHECK = object()
+
+def same_native(a, b):
+    if b is NOCHECK:
+        return True
+    if isinstance(b, float) and b != b:
+        return isinstance(a, float) and a != a
+    if isinstance(b, _dt.datetime):
+        return isinstance(a, _dt.datetime) and (a.tzinfo is None) == (b.tzinfo is None) and a == b
+    try:
+        return a == b
+    except Exception:
+        return False
+
+def expect(check, h, fam, tdesc, texpr, shape, proto, pos, payload, want, native=NOCHECK, strict=True, extra=None):
+    """one request against the oracle.  strict: the canonical wire form of a logical request - accepted iff it
+    conforms.  lenient (an alternative document form, e.g. a MessagePack bin string or a JSON number where
+    Spyne itself writes text): it may be read as the value or refused, but never crash, never be accepted when
+    the value does not conform, never arrive as another value"""
+    res = h.run(proto, pos, payload)
+    got = classify(res)
+    if got is None:
+        return None
+    check.count((fam, tdesc, shape, proto, pos, repr(payload)))
+    if got.startswith('other'):
+        ok = False
+    elif strict:
+        ok = (got == 'accept') == want
+    else:
+        ok = got != 'accept' or want
+    if ok and got == 'accept' and native is not NOCHECK:
+        delivered = res[1]
+        if pos in ('arr', 'narr', 'multi', 'nmulti') and payload[0] == 'items' and len(payload[1]) == 1 and not isinstance(native, list):
+            delivered = delivered[0] if isinstance(delivered, list) and len(delivered) == 1 else NOCHECK
+        ok = same_native(delivered, native)
+    if not ok:
+        rp = {'family': fam, 'type_expr': texpr, 'protocol': proto, 'position': pos, 'payload': repr(payload)}
+        rp.update(extra or {})
+        check.fail('C05|%s|%s|%s|%s|%s' % (fam, tdesc, shape, proto, pos),
+                   '%s, %s, over %s at %s, request %r: expected %s, got %r' % (
+                       texpr, shape, proto, pos, payload,
+                       ('accept' if want else 'reject') if strict else ('accept or reject' if want else 'reject'), res), rp)
+    return got
+
+def d_(y, m, d, H=0, M=0, S=0, off=0):
+    return _dt.datetime(y, m, d, H, M, S, tzinfo=_dt.timezone(_dt.timedelta(minutes=off)) if off is not None else None)
+
+def forms_table():
+    D = _dec.Decimal
+    nan, inf = float('nan'), float('inf')
+    U1 = '12345678-1234-1234-1234-123456789abc'
+    import uuid
+    T = []
+    def add(texpr, tdesc, cases):
+        T.append((texpr, tdesc, cases))
+    # (shape, value, native, conforms, strict)
+    add('Unicode(min_len=2, max_len=3)', 'Unicode+max_len+min_len', [
+        ('empty-string', Wv('', ''), '', False, True),
+        ('bin-too-short', Wv(None, b'a'), 'a', False, False),
+        ('bin-too-long', Wv(None, b'abcd'), 'abcd', False, False),
+        ('bin-conforming', Wv(None, b'ab'), 'ab', True, False),
+        ('bin-not-utf8', Wv(None, b'\xff\xfe'), NOCHECK, False, False),
+        ('number-for-text', Wv(None, 5), NOCHECK, False, False),
+        ('list-for-text', Wv(None, ['ab']), NOCHECK, False, False)])
+    add('Unicode', 'Unicode', [
+        ('empty-string', Wv('', ''), '', True, True),
+        ('bin-conforming', Wv(None, b'ab'), 'ab', True, False)])
+    add('Unicode(pattern="[a-z]+")', 'Unicode+pattern', [
+        ('bin-not-matching', Wv(None, b'AB'), 'AB', False, False),
+        ('bin-matching', Wv(None, b'ab'), 'ab', True, False),
+        ('empty-string', Wv('', ''), '', False, True)])
+    add('Unicode(values=["red", "green"])', 'Unicode+values', [
+        ('bin-not-listed', Wv(None, b'blue'), 'blue', False, False),
+        ('bin-listed', Wv(None, b'red'), 'red', True, False)])
+    for texpr, tdesc, onb in (('Decimal(ge=0, le=10)', 'Decimal+ge+le', True), ('Decimal(gt=0, lt=10)', 'Decimal+gt+lt', False)):
+        add(texpr, tdesc, [
+            ('in-range', Wv('1.5', '1.5'), D('1.5'), True, True),
+            ('above', Wv('10.5', '10.5'), D('10.5'), False, True),
+            ('below', Wv('-0.5', '-0.5'), D('-0.5'), False, True),
+            ('on-upper-bound', Wv('10', '10'), D(10), onb, True),
+            ('on-lower-bound', Wv('0', '0'), D(0), onb, True),
+            ('nan', Wv('NaN', 'NaN'), NOCHECK, False, True),
+            ('snan', Wv('sNaN', 'sNaN'), NOCHECK, False, True),
+            ('infinity', Wv('Infinity', 'Infinity'), NOCHECK, False, True),
+            ('number-in-range', Wv(None, 1.5), D('1.5'), True, False),
+            ('number-above', Wv(None, 11), D(11), False, False),
+            ('integer-number', Wv(None, 3), D(3), True, False),
+            ('boolean-for-decimal', Wv(None, True), NOCHECK, False, False),
+            ('list-for-decimal', Wv(None, [1]), NOCHECK, False, False),
+            ('bin-in-range', Wv(None, b'1.5'), D('1.5'), True, False),
+            ('bin-above', Wv(None, b'11'), D(11), False, False)])
+    add('Decimal', 'Decimal', [
+        ('nan', Wv('NaN', 'NaN'), NOCHECK, False, True),
+        ('infinity', Wv('-Infinity', '-Infinity'), NOCHECK, False, True),
+        ('plain', Wv('-12.50', '-12.50'), D('-12.50'), True, True),
+        ('number-nan', Wv(None, nan), NOCHECK, False, False)])
+    add('Double(ge=0.0, le=10.0)', 'Double+ge+le', [
+        ('in-range', Wv('1.5', 1.5), 1.5, True, True),
+        ('above', Wv('10.5', 10.5), 10.5, False, True),
+        ('below', Wv('-0.5', -0.5), -0.5, False, True),
+        ('on-upper-bound', Wv('10.0', 10.0), 10.0, True, True),
+        ('integer-number', Wv('3', 3), 3, True, True),
+        ('nan', Wv('NaN', nan), nan, False, True),
+        ('inf', Wv('INF', inf), inf, False, True),
+        ('neg-inf', Wv('-INF', -inf), -inf, False, True),
+        ('text-for-double', Wv(None, '1.5'), 1.5, True, False),
+        ('text-above', Wv(None, '10.5'), 10.5, False, False),
+        ('list-for-double', Wv(None, [1.5]), NOCHECK, False, False)])
+    add('Double', 'Double', [
+        ('nan', Wv('NaN', nan), nan, True, True),
+        ('inf', Wv('INF', inf), inf, True, True),
+        ('neg-inf', Wv('-INF', -inf), -inf, True, True),
+        ('huge', Wv('1e+300', 1e300), 1e300, True, True)])
+    add('Double(gt=0.0)', 'Double+gt', [
+        ('nan', Wv('NaN', nan), nan, False, True),
+        ('inf', Wv('INF', inf), inf, True, True),
+        ('neg-inf', Wv('-INF', -inf), -inf, False, True),
+        ('on-lower-bound', Wv('0.0', 0.0), 0.0, False, True)])
+    add('Double(le=5.0)', 'Double+le', [
+        ('inf', Wv('INF', inf), inf, False, True),
+        ('neg-inf', Wv('-INF', -inf), -inf, True, True),
+        ('nan', Wv('NaN', nan), nan, False, True)])
+    for texpr, tdesc, onb in (('Date(ge=datetime.date(2020, 1, 1), le=datetime.date(2020, 12, 31))', 'Date+ge+le', True),
+                              ('Date(gt=datetime.date(2020, 1, 1), lt=datetime.date(2020, 12, 31))', 'Date+gt+lt', False)):
+        add(texpr, tdesc, [
+            ('in-range', Wv('2020-06-01', '2020-06-01'), _dt.date(2020, 6, 1), True, True),
+            ('below', Wv('2019-12-31', '2019-12-31'), _dt.date(2019, 12, 31), False, True),
+            ('above', Wv('2021-01-01', '2021-01-01'), _dt.date(2021, 1, 1), False, True),
+            ('on-lower-bound', Wv('2020-01-01', '2020-01-01'), _dt.date(2020, 1, 1), onb, True),
+            ('on-upper-bound', Wv('2020-12-31', '2020-12-31'), _dt.date(2020, 12, 31), onb, True),
+            ('in-range-with-zone', Wv('2020-06-01Z', '2020-06-01Z'), _dt.date(2020, 6, 1), True, True),
+            ('bin-in-range', Wv(None, b'2020-06-01'), _dt.date(2020, 6, 1), True, False),
+            ('bin-below', Wv(None, b'2019-06-01'), _dt.date(2019, 6, 1), False, False),
+            ('number-for-date', Wv(None, 20200601), NOCHECK, False, False),
+            ('native-date-in-range', Wv(None, _dt.date(2020, 6, 1)), _dt.date(2020, 6, 1), True, False),
+            ('native-date-below', Wv(None, _dt.date(2019, 6, 1)), _dt.date(2019, 6, 1), False, False)])
+    for texpr, tdesc, onb in (('Time(ge=datetime.time(9), le=datetime.time(17))', 'Time+ge+le', True),
+                              ('Time(gt=datetime.time(9), lt=datetime.time(17))', 'Time+gt+lt', False)):
+        add(texpr, tdesc, [
+            ('in-range', Wv('12:00:00', '12:00:00'), _dt.time(12), True, True),
+            ('below', Wv('08:59:59.999999', '08:59:59.999999'), _dt.time(8, 59, 59, 999999), False, True),
+            ('above', Wv('17:00:00.000001', '17:00:00.000001'), _dt.time(17, 0, 0, 1), False, True),
+            ('on-lower-bound', Wv('09:00:00', '09:00:00'), _dt.time(9), onb, True),
+            ('on-upper-bound', Wv('17:00:00', '17:00:00'), _dt.time(17), onb, True),
+            ('bin-in-range', Wv(None, b'12:00:00'), _dt.time(12), True, False),
+            ('bin-below', Wv(None, b'08:00:00'), _dt.time(8), False, False),
+            ('number-for-time', Wv(None, 12), NOCHECK, False, False)])
+    add('DateTime(ge=datetime.datetime(2020, 1, 1, tzinfo=utc))', 'DateTime+ge', [
+        ('in-range', Wv('2021-01-01T00:00:00Z', '2021-01-01T00:00:00Z'), d_(2021, 1, 1), True, True),
+        ('below', Wv('2019-12-31T23:59:59Z', '2019-12-31T23:59:59Z'), d_(2019, 12, 31, 23, 59, 59), False, True),
+        ('below-by-offset', Wv('2020-01-01T01:00:00+02:00', '2020-01-01T01:00:00+02:00'), d_(2020, 1, 1, 1, off=120), False, True),
+        ('in-range-by-offset', Wv('2019-12-31T23:00:00-02:00', '2019-12-31T23:00:00-02:00'), d_(2019, 12, 31, 23, off=-120), True, True),
+        ('naive-in-range', Wv('2020-01-01T00:00:00', '2020-01-01T00:00:00'), d_(2020, 1, 1, off=None), True, True),
+        ('naive-below', Wv('2019-12-31T23:59:59', '2019-12-31T23:59:59'), d_(2019, 12, 31, 23, 59, 59, off=None), False, True),
+        ('bin-in-range', Wv(None, b'2021-01-01T00:00:00Z'), d_(2021, 1, 1), True, False),
+        ('bin-below', Wv(None, b'2019-01-01T00:00:00Z'), d_(2019, 1, 1), False, False),
+        ('number-for-datetime', Wv(None, 5), NOCHECK, False, False),
+        ('native-timestamp-in-range', Wv(None, d_(2021, 1, 1)), d_(2021, 1, 1), True, False),
+        ('native-timestamp-below', Wv(None, d_(2019, 1, 1)), d_(2019, 1, 1), False, False)])
+    add('Duration', 'Duration', [
+        ('one-day', Wv('P1D', 'P1D'), _dt.timedelta(1), True, True),
+        ('garbage', Wv('xyz', 'xyz'), NOCHECK, False, True),
+        ('bin', Wv(None, b'P1D'), _dt.timedelta(1), True, False),
+        ('bin-garbage', Wv(None, b'xyz'), NOCHECK, False, False),
+        ('number-for-duration', Wv(None, 5), NOCHECK, False, False)])
+    add('Uuid', 'Uuid', [
+        ('canonical', Wv(U1, U1), uuid.UUID(U1), True, True),
+        ('garbage', Wv('xyz', 'xyz'), NOCHECK, False, True),
+        ('without-hyphens', Wv(U1.replace('-', ''), U1.replace('-', '')), NOCHECK, False, True),
+        ('bin', Wv(None, U1.encode()), uuid.UUID(U1), True, False),
+        ('bin-garbage', Wv(None, b'xyz'), NOCHECK, False, False),
+        ('number-for-uuid', Wv(None, 5), NOCHECK, False, False)])
+    add('Boolean', 'Boolean', [
+        ('true', Wv('true', True), True, True, True),
+        ('false', Wv('false', False), False, True, True),
+        ('one', Wv('1', True), True, True, True),
+        ('text-for-boolean', Wv(None, 'true'), True, True, False),
+        ('number-for-boolean', Wv(None, 2), NOCHECK, False, False),
+        ('bin-for-boolean', Wv(None, b'true'), True, True, False),
+        ('list-for-boolean', Wv(None, [True]), NOCHECK, False, False)])
+    add('Integer8(ge=0)', 'Integer8+ge', [
+        ('text-for-integer', Wv(None, '5'), 5, True, False),
+        ('text-out-of-range', Wv(None, '200'), 200, False, False),
+        ('text-below-ge', Wv(None, '-1'), -1, False, False),
+        ('bin-for-integer', Wv(None, b'5'), 5, True, False),
+        ('bin-out-of-range', Wv(None, b'200'), 200, False, False),
+        ('float-integral', Wv(None, 5.0), 5, True, False),
+        ('float-fraction', Wv(None, 5.5), NOCHECK, False, False),
+        ('float-out-of-range', Wv(None, 200.0), 200, False, False),
+        ('list-for-integer', Wv(None, [5]), NOCHECK, False, False)])
+    add('Enum("red", "green", type_name="Color")', 'Enum', [
+        ('listed', Wv('red', 'red'), NOCHECK, True, True),
+        ('not-listed', Wv('blue', 'blue'), NOCHECK, False, True),
+        ('number-for-enum', Wv(None, 5), NOCHECK, False, False)])
+    return T
+
+
+def family_forms(check, tier):
+    """every primitive kind with range / length / pattern / enumeration facets: canonical wire forms must be
+    accepted iff the value conforms; alternative document forms (byte strings, numbers where Spyne writes
+    text and the reverse, YAML native timestamps, lists) must never crash, never let a non-conforming value
+    through and never arrive as another value.  All six protocols, four nesting positions."""
+    for texpr, tdesc, cases in forms_table():
+        h = Harness(mk_type(texpr))
+        positions = ('top', 'nested', 'arr') if tdesc == 'Enum' else ('top', 'nested', 'arr', 'att')
+        for shape, v, native, conforms, strict in cases:
+            for proto in PROTOS:
+                for pos in positions:
+                    payload = ('items', [v]) if pos == 'arr' else ('val', v)
+                    expect(check, h, 'forms', tdesc, texpr, shape, proto, pos, payload, conforms, native, strict)
+    check.sample({'family': 'wire forms', 'types': [t[1] for t in forms_table()][:8],
+                  'example': ['Unicode(min_len=2, max_len=3)', 'bin-too-short', "msgpack bin b'a'", 'reject']})
+
+
+NULL_TYPES = ['Unicode', 'Integer', 'Integer8', 'Decimal', 'Double', 'Boolean', 'DateTime', 'Date', 'Time', 'Duration',
+              'Uuid', 'Unicode(min_len=2)', 'Decimal(ge=0)', 'Date(ge=datetime.date(2020, 1, 1))']
+
+def family_null(check, tier):
+    """nullability at every position and in every protocol that can say null: an explicit null (JSON null,
+    YAML ~, MessagePack nil, xsi:nil) is accepted iff the type is nillable and arrives as None; an absent
+    member is accepted iff min_occurs is 0"""
+    rng = check.rng
+    types = NULL_TYPES if tier != 'quick' else NULL_TYPES[:11] + rng.sample(NULL_TYPES[11:], 1)
+    for texpr in types:
+        for nill in (True, False):
+            for mino in (0, 1):
+                if mino == 1 and nill and tier == 'quick' and rng.random() < .5:
+                    continue
+                full = texpr + ('(' if '(' not in texpr else '.customize(') + 'nillable=%s, min_occurs=%d)' % (nill, mino)
+                h = Harness(mk_type(full))
+                tdesc = texpr.split('(')[0] + ('+facets' if '(' in texpr else '')
+                for proto in PROTOS:
+                    for pos in ('top', 'nested', 'att'):
+                        expect(check, h, 'null', tdesc, full, 'null|nillable=%s' % nill, proto, pos, ('null',), nill, None)
+                        expect(check, h, 'null', tdesc, full, 'absent|min_occurs=%d' % mino, proto, pos, ('absent',), mino == 0, None)
+                    if mino == 0:
+                        expect(check, h, 'null', tdesc, full, 'null-item|nillable=%s' % nill, proto, 'arr', ('items', [NULL]), nill, None)
+    check.sample({'family': 'null / absent', 'types': NULL_TYPES[:6], 'positions': ['top', 'nested', 'att', 'arr item']})
+
+
+def family_array_occurs(check, tier):
+    """Array(T, min_occurs=a) constrains the array element itself (0 or 1 occurrences), Array(T(min_occurs=m,
+    max_occurs=n)) the items inside it: absent / null / 0..k items, as an argument and as a member of an
+    object, over all six protocols"""
+    specs = [('Array(Integer)', 0, 0, None), ('Array(Integer, min_occurs=1)', 1, 0, None),
+             ('Array(Integer(min_occurs=1))', 0, 1, None), ('Array(Integer(min_occurs=2, max_occurs=3))', 0, 2, 3),
+             ('Array(Integer(min_occurs=1, max_occurs=2), min_occurs=1)', 1, 1, 2),
+             ('Array(Integer(max_occurs=2))', 0, 0, 2)]
+    hi = 5 if tier == 'quick' else 8
+    for aexpr, wmin, mmin, mmax in specs:
+        h = Harness(mk_type('Integer'), array=mk_type(aexpr))
+        for proto in PROTOS:
+            for pos in ('arr', 'narr'):
+                expect(check, h, 'array-occurs', aexpr, 'Integer', 'array-absent', proto, pos, ('absent',), wmin == 0, None,
+                       extra={'array_expr': aexpr})
+                for n in range(0, hi):
+                    want = mmin <= n and (mmax is None or n <= mmax)
+                    shape = 'items-under-min' if n < mmin else 'items-over-max' if (mmax is not None and n > mmax) else 'items-conforming'
+                    expect(check, h, 'array-occurs', aexpr, 'Integer', shape, proto, pos, ('items', list(range(n))), want,
+                           list(range(n)), extra={'array_expr': aexpr})
+    check.sample({'family': 'array vs item occurrence', 'arrays': [s[0] for s in specs], 'items': [0, hi - 1]})
+
+
+def family_null_members(check, tier):
+    """object-valued and array-valued members: null is accepted iff the member is nillable (and arrives as
+    None), absent iff min_occurs is 0"""
+    from spyne import Application, rpc, ServiceBase, ComplexModel, Array, Unicode, Integer
+    from spyne.model.complex import ComplexModelMeta
+    from spyne.protocol.xml import XmlDocument
+    from spyne.protocol.soap import Soap11
+    from spyne.protocol.json import JsonDocument
+    from spyne.protocol.yaml import YamlDocument
+    from spyne.protocol.msgpack import MessagePackDocument
+    from lxml import etree
+    calls = []
+    Inner = ComplexModelMeta('Inner', (ComplexModel,), {'__namespace__': TNS, '_type_info': [('a', Integer)]})
+    for kind, base in (('object', Inner), ('array', Array(Integer))):
+        for nill in (True, False):
+            for mino in (0, 1):
+                MT = base.customize(nillable=nill, min_occurs=mino)
+                Outer = ComplexModelMeta('Outer', (ComplexModel,), {'__namespace__': TNS, '_type_info': [('m', MT), ('z', Integer)]})
+
+                class S(ServiceBase):
+                    @rpc(Outer, _returns=Unicode)
+                    def member(ctx, x):
+                        calls.append(('member', None if x is None else x.m)); return 'ok'
+
+                    @rpc(MT, _returns=Unicode)
+                    def arg(ctx, x):
+                        calls.append(('arg', x)); return 'ok'
+                protos = {'xml': XmlDocument, 'soap11': Soap11, 'json': JsonDocument, 'yaml': YamlDocument, 'msgpack': MessagePackDocument}
+                for proto, P in protos.items():
+                    app = Application([S], TNS, in_protocol=P(validator='soft'), out_protocol=JsonDocument())
+                    for pos in ('member', 'arg'):
+                        for form, want in (('null', nill), ('absent', mino == 0)):
+                            if proto in ('xml', 'soap11'):
+                                nsq = '{%s}' % TNS
+                                root = etree.Element(nsq + pos, nsmap={None: TNS, 'xsi': XSI})
+                                parent = root
+                                if pos == 'member':
+                                    parent = etree.SubElement(root, nsq + 'x')
+                                    etree.SubElement(parent, nsq + 'z').text = '1'
+                                if form == 'null':
+                                    etree.SubElement(parent, nsq + ('m' if pos == 'member' else 'x')).set('{%s}nil' % XSI, 'true')
+                                if proto == 'soap11':
+                                    env = etree.Element('{http://schemas.xmlsoap.org/soap/envelope/}Envelope')
+                                    etree.SubElement(env, '{http://schemas.xmlsoap.org/soap/envelope/}Body').append(root)
+                                    root = env
+                                body = etree.tostring(root)
+                            else:
+                                if pos == 'member':
+                                    d = {'member': {'x': dict({'z': 1}, **({'m': None} if form == 'null' else {}))}}
+                                else:
+                                    d = {'arg': ({'x': None} if form == 'null' else {})}
+                                body = encode_doc(proto, d)
+                            res = drive(app, calls, proto, body=body)
+                            got = classify(res)
+                            check.count(('null-member', kind, nill, mino, proto, pos, form))
+                            ok = (got == 'accept') == want and not got.startswith('other')
+                            if ok and got == 'accept':
+                                ok = res[1] is None
+                            if not ok:
+                                check.fail('C05|null-member|%s|%s|%s|%s' % (kind, '%s|nillable=%s,min_occurs=%d' % (form, nill, mino), proto, pos),
+                                           '%s-valued %s (nillable=%s, min_occurs=%d) sent as %s over %s: expected %s, got %r' % (
+                                               kind, pos, nill, mino, form, proto, 'accept with None' if want else 'reject', res),
+                                           {'family': 'null-member', 'kind': kind, 'nillable': nill, 'min_occurs': mino,
+                                            'form': form, 'protocol': proto, 'position': pos})
+    check.sample({'family': 'null / absent object and array members', 'protocols': ['xml', 'soap11', 'json', 'yaml', 'msgpack']})
+
+
 def run(check):
     check.rule = ('generated one-argument services around each type under test (every fixed-width integer class, '
                   'arbitrary-size integers, customised range/enumeration/nillable facets, Unicode length/pattern/values, '
@@ -822,6 +1149,10 @@ def run(check):
     family_occurs_single(check, check.tier)
     family_datetime_range(check, check.tier)
     family_lexical(check, check.tier)
+    family_forms(check, check.tier)
+    family_null(check, check.tier)
+    family_array_occurs(check, check.tier)
+    family_null_members(check, check.tier)
     lib.flush_correspondences(check)
     return check.finish()
 
